@@ -185,3 +185,51 @@ pub fn c20_nested_forms() {
     cover!(true, "end reached");
     sym::forget((a, b, sa, sb));
 }
+
+// @h prop=C20 tier=quick kind=proof inst="SliceRegion<MirrorRegion<u8>>: the EMPTY value in the forms &[u8], Vec<u8>, [u8;0], ReadSlice (region-backed), ReadSlice (owned-borrowed), pushed onto a non-empty region" bounds="one 2-byte item, then the empty value once per form" desc="an empty value gets the same index and stores the same bytes in every form (the index of an empty item is not (0,0) on a populated region)"
+#[cfg_attr(kani, kani::proof, kani::unwind(12))]
+pub fn c20_slice_empty_forms() {
+    let mut a = SR::default();
+    let mut b = SR::default();
+    let first = sym::bytes::<2>();
+    let e: [u8; 0] = [];
+    let mut other = SR::default();
+    let _ = other.push(first.as_slice());
+    let ie = other.push(e.as_slice());
+    let owned: Vec<u8> = Vec::new();
+    let _ = step!(a, b, first.as_slice(), first.as_slice());
+    let i1 = step!(a, b, e.as_slice(), e.as_slice());
+    let _ = step!(a, b, Vec::<u8>::new(), e.as_slice());
+    let _ = step!(a, b, e, e.as_slice());
+    let i4 = step!(a, b, other.index(ie), e.as_slice());
+    let i5 = step!(a, b, <SR as Region>::ReadItem::borrow_as(&owned), e.as_slice());
+    assert!(i1 == (2, 2) && i4 == (2, 2) && i5 == (2, 2), "C20: an empty item does not start at the current end of the region");
+    assert!(a.index(i4).is_empty() && a.index(i5).len() == 0, "C20: empty item pushed as a read item is not empty");
+    let last = sym::bytes::<2>();
+    let il = step!(a, b, last.as_slice(), last.as_slice());
+    assert!(a.index(il).get(0) == last[0] && a.index(il).get(1) == last[1], "C20: item after the empty items reads differently");
+    cover!(true, "end reached");
+    sym::forget((a, b, other));
+}
+
+// @h prop=C20 tier=quick kind=proof inst="ConsecutiveIndexPairs<SliceRegion<MirrorRegion<u8>>>: empty and non-empty read items from another region" bounds="items of 2, 0, 2 symbolic bytes pushed as region-backed read items of a second region" desc="read items as input form under dense indexing: indices 0,1,2, reads equal (no panic)"
+#[cfg_attr(kani, kani::proof, kani::unwind(12))]
+pub fn c20_cip_slice_read_items() {
+    type W = ConsecutiveIndexPairs<SR>;
+    let mut src = SR::default();
+    let x = sym::bytes::<2>();
+    let y = sym::bytes::<2>();
+    let e: [u8; 0] = [];
+    let ix = src.push(x.as_slice());
+    let ie = src.push(e.as_slice());
+    let iy = src.push(y.as_slice());
+    let mut a = W::default();
+    let mut b = W::default();
+    let _ = step!(a, b, src.index(ix), x.as_slice());
+    let j = step!(a, b, src.index(ie), e.as_slice());
+    let k = step!(a, b, src.index(iy), y.as_slice());
+    assert!(j == 1 && k == 2, "C20: dense indices differ when items are pushed as read items");
+    assert!(a.index(j).is_empty() && a.index(k).get(1) == y[1] && a.index(k).len() == 2, "C20: items pushed as read items read differently");
+    cover!(true, "end reached");
+    sym::forget((a, b, src));
+}
